@@ -149,6 +149,27 @@ func UserCtx() *eval.Context {
 	if err := ctx.SetFunc("sub2", func(x, y int) int { return x - 2*y }); err != nil {
 		panic(err)
 	}
+	// functions that do NOT map a null operand to the zero value of their result type
+	if err := ctx.SetFunc("fill", func(x *string) *string {
+		r := "N/A"
+		if x != nil {
+			r = *x + "?"
+		}
+		return &r
+	}); err != nil {
+		panic(err)
+	}
+	if err := ctx.SetFunc("isnil", func(x *string) bool { return x == nil }); err != nil {
+		panic(err)
+	}
+	if err := ctx.SetFunc("lenor", func(x *string) int {
+		if x == nil {
+			return -1
+		}
+		return len(*x)
+	}); err != nil {
+		panic(err)
+	}
 	return ctx
 }
 
@@ -242,6 +263,28 @@ func unary(kind Kind, op string, user bool) (Kind, func(Cell) Cell, bool) {
 				}
 				return I(len(c.S))
 			}, true
+		case "fill":
+			if user {
+				return String, func(c Cell) Cell {
+					if c.Null {
+						return S("N/A")
+					}
+					return S(c.S + "?")
+				}, true
+			}
+		case "isnil":
+			if user {
+				return Bool, func(c Cell) Cell { return B(c.Null) }, true
+			}
+		case "lenor":
+			if user {
+				return Int, func(c Cell) Cell {
+					if c.Null {
+						return I(-1)
+					}
+					return I(len(c.S))
+				}, true
+			}
 		}
 	}
 	return Undef, nil, false
